@@ -1,5 +1,6 @@
 (* C02 — Failover: only healthy backends are used; 503 only when none is healthy.  Statements only. *)
 From Helios Require Import Base.Prelude Base.Wrap Model.Hash Model.Strategy Model.LB Proofs.StrategyProofs Proofs.LBProofs Proofs.FailoverProofs.
+From Helios Require Import Gen.StrategyGen Proofs.StrategyRefine.
 
 (* the health gate every dispatch goes through decides exactly "not inside the unhealthy window" *)
 Theorem C02_gate :
@@ -79,3 +80,17 @@ Theorem C02_ejection_is_source :
   forall b now d, fst (lb_MarkBackendUnhealthy mkLoadBalancer (abs_be b) now d) = abs_be (set_until (now + d) (set_flag false b)).
 Proof. exact mark_refines. Qed.
 Print Assumptions C02_ejection_is_source.
+
+(* The selection functions of the three counting strategies, on which the eligibility theorems above rest, are the source:
+   regenerated from the NextBackend loops on every run (Gen/StrategyGen.v) and proved equal to the models (StrategyRefine.v) *)
+Theorem C02_selection_is_source :
+  (forall pool ctr, (at_idx pool (fst (sg_rr_next pool ctr)), snd (snd (sg_rr_next pool ctr))) = rr_pick pool ctr)
+  /\ (forall pool ctr, at_idx pool (fst (sg_lc_next pool ctr)) = lc_pick pool)
+  /\ (forall pool ctr, NoDup (map bid pool) ->
+        option_map (fun j => bid (nth j pool dB)) (fst (sg_wrr_next pool ctr)) = option_map bid (fst (wrr_pick pool))).
+Proof.
+  split; [intros pool ctr; exact (proj1 (rr_is_source pool ctr))|].
+  split; [intros pool ctr; exact (proj1 (lc_is_source pool ctr))|].
+  intros pool ctr H. exact (proj1 (proj2 (wrr_is_source pool ctr H))).
+Qed.
+Print Assumptions C02_selection_is_source.
